@@ -89,6 +89,11 @@ func c20InjectGen(rng *core.Rng, tier string, p *harness.Plan) {
 			p.Ops = append(p.Ops, harness.Op{At: at, Kind: "hist", N: rng.IntN(chains), A: int64(rng.IntN(2)), C: int64(rng.Uint64() >> 1), S: fmt.Sprint("v", i, "h", k)})
 		}
 	}
+	if rng.Chance(0.6) {
+		at += int64(2 * time.Second / time.Microsecond)
+		p.Ops = append(p.Ops, harness.Op{At: at, Kind: "tooearly", N: rng.IntN(3), B: int64(rng.IntN(2)), C: int64(rng.Uint64() >> 1), S: "te"})
+		at += int64(40 * time.Second / time.Microsecond)
+	}
 	p.Params["dur_ms"] = at/1000 + 3000
 }
 
@@ -284,6 +289,108 @@ func c20InjectExec(p *harness.Plan) *harness.Outcome {
 		})
 		kinds["empty-head-stale"]++
 		conclude(victim, variant, "empty-head-stale", 3500*time.Millisecond, vr)
+	}
+	// "tooearly": a proposal (strict path) whose external reference is a known final round above the
+	// stored link but many hours older than what the other chains offer. The transition must be refused
+	// with nothing changed, in memory as on disk.
+	r.extra["tooearly"] = func(op harness.Op, idx int) {
+		vr := core.NewRng(uint64(op.C))
+		inj.now = c.NowNano()
+		xi := op.N % len(inj.chains)
+		x := inj.chains[xi]
+		if !closable(x) {
+			return
+		}
+		// y: a chain with a closed round above x's link to it (close one now if needed)
+		yi := (xi + 1 + int(op.B)%2) % 3
+		wi := 3 - xi%3 - yi%3
+		if xi >= 3 || yi == xi || wi == xi || wi == yi || wi < 0 || wi > 2 {
+			return
+		}
+		y, w := inj.chains[yi], inj.chains[wi]
+		for k := 0; k < 3 && (y.number == 0 || y.number-1 <= x.links[y.id]); k++ {
+			it, err := inj.next(yi, true)
+			if err != nil {
+				return
+			}
+			valid = append(valid, it)
+			toAll(it, vr, -1)
+		}
+		if y.number == 0 || y.number-1 <= x.links[y.id] {
+			return
+		}
+		oldRound := y.number - 1
+		oldHash := y.closed[oldRound]
+		// everybody idles for six hours
+		c.Q.At(c.Q.Now+1500*time.Millisecond, "c20.tooearly.jump", func() {
+			c.JumpTime(6 * time.Hour)
+			r.fault("clock.jump_6h", c.Q.Now)
+			// w moves on after the pause, and x links to w's first round after the pause
+			var firstW *extRef
+			for k := 0; k < 4; k++ {
+				inj.now = c.NowNano() + uint64(k)*uint64(gap+gap/10)
+				it, err := inj.next(wi, true)
+				if err != nil {
+					return
+				}
+				valid = append(valid, it)
+				if k == 1 {
+					firstW = &extRef{w.id, w.number - 1, w.closed[w.number-1]}
+				}
+				c.Q.At(c.Q.Now+time.Duration(k)*time.Duration(gap+gap/10)+time.Duration(vr.IntN(20))*time.Millisecond, "c20.tooearly.w", func() { toAll(it, vr, -1) })
+			}
+			if firstW == nil {
+				return
+			}
+			after := 4 * time.Duration(gap+gap/10)
+			c.Q.At(c.Q.Now+after, "c20.tooearly.x", func() {
+				inj.now = c.NowNano()
+				inj.forceExternal = firstW
+				itX, err := inj.next(xi, true)
+				inj.forceExternal = nil
+				if err != nil {
+					return
+				}
+				valid = append(valid, itX)
+				toAll(itX, vr, -1)
+				c.Q.At(c.Q.Now+1500*time.Millisecond, "c20.tooearly.announce", func() {
+					xNode := c.Nodes[inj.order[0]]
+					for _, n := range c.Nodes[:inj.n] {
+						if n.Id == x.id {
+							xNode = n
+						}
+					}
+					if !xNode.Alive {
+						return
+					}
+					c.Crash(xNode, false) // the proposer is Byzantine from here on: the simulator speaks for it
+					_, final := roundHashRef(x.id, x.number, x.snaps)
+					inj.seq++
+					tx, _ := c.MakeDeposit(cluster.AssetBTC, common.NewIntegerFromString("0.5"), fmt.Sprintf("inj-%d", inj.seq), 0, []int{0}, 1)
+					s := &common.Snapshot{Version: common.SnapshotVersionCommonEncoding, NodeId: x.id, RoundNumber: x.number + 1,
+						References: &common.RoundLink{Self: final, External: oldHash}, Timestamp: c.NowNano()}
+					s.AddTransaction(tx.PayloadHash())
+					s.Hash = s.PayloadHash()
+					seed := make([]byte, 64)
+					vr.Bytes(seed)
+					nonce := crypto.NewKeyFromSeed(seed)
+					for _, n := range c.Nodes[:inj.n] {
+						if n != xNode && n.Alive {
+							c.Inject(xNode, n, buildTxBundle([]*common.VersionedTransaction{tx}, true), vr.Dur(0, 10*time.Millisecond))
+							c.Inject(xNode, n, buildAnnouncement(s, nonce.Public(), xNode.Signer.PrivateSpendKey), 15*time.Millisecond+vr.Dur(0, 10*time.Millisecond))
+						}
+					}
+					kinds["too-early-external"]++
+					c.Trace.Logf(c.Q.Now, "proposal on chain %s round %d references round %d of chain %s from before the pause (link %d)", x.id.String()[:6], s.RoundNumber, oldRound, y.id.String()[:6], x.links[y.id])
+					c.Q.At(c.Q.Now+4*time.Second, "c20.tooearly.restart", func() {
+						r.out.Evals++
+						if err := c.Restart(xNode); err != nil {
+							c.Violate("C20", "restart-failed", err.Error(), xNode)
+						}
+					})
+				})
+			})
+		})
 	}
 	r.schedule()
 	r.settled = func() bool {
